@@ -53,7 +53,7 @@ impl<T: Float> KahanSum<T> {
     /// Return the current value of the sum
     ///
     pub fn value(&self) -> T {
-        self.sum + self.compensation
+        self.sum - self.compensation
     }
 }
 
@@ -78,7 +78,7 @@ impl<T: Float + core::fmt::Display> core::fmt::Display for KahanSum<T> {
 impl<T: Float> core::ops::AddAssign<Self> for KahanSum<T> {
     fn add_assign(&mut self, rhs: Self) {
         kahan_add(&mut self.sum, rhs.sum, &mut self.compensation);
-        kahan_add(&mut self.sum, rhs.compensation, &mut self.compensation);
+        kahan_add(&mut self.sum, -rhs.compensation, &mut self.compensation);
     }
 }
 
@@ -126,7 +126,14 @@ fn kahan_add<T: Float>(current_sum: &mut T, x: T, compensation: &mut T) {
     let c = *compensation;
     let y = x - c;
     let t = sum + y;
-    *compensation = (t - sum) - y;
+    // the rounding error of `sum + y` is recovered exactly only if the operand of larger
+    // magnitude is subtracted first (Neumaier's variant); this matters when a register
+    // holding a large partial sum is merged into a smaller one
+    *compensation = if sum.abs() >= y.abs() {
+        (t - sum) - y
+    } else {
+        (t - y) - sum
+    };
     *current_sum = t;
 }
 
